@@ -35,6 +35,10 @@ def credentials() -> list[tuple[bytes, bytes]]:
     out = []
     for i in range(max(len(ks), len(ts))):
         out.append((ts[i % len(ts)], ks[i % len(ks)]))
+    # byte-form credentials that look like text: white-space bytes at either end, nothing but ASCII hex digits
+    out.append((b" " + filler("token/ws1", 63), filler("key/ws1", 31) + b"\n"))
+    out.append((filler("token/ws2", 63) + b"\r", b"\t" + filler("key/ws2", 31)))
+    out.append((b"0123456789abcdef" * 4, b"fedcba9876543210" * 2))
     return out
 
 
